@@ -1043,6 +1043,36 @@ def reference_optimum(ctx):
     return {"x": {v: xv[sl[v]] for v in design}, "f": float(sols[0].fun), "sol": sol}
 
 
+class _OptWatchdog(BaseException):
+    """Raised by the per-run wall-clock watchdog (BaseException: gemseo must not convert it into a result)."""
+
+
+class _opt_watchdog:  # noqa: N801
+    def __init__(self, seconds):
+        self.seconds = seconds
+
+    def __enter__(self):
+        import signal
+        import threading
+
+        self.active = threading.current_thread() is threading.main_thread()
+        if self.active:
+            def _raise(signum, frame):
+                raise _OptWatchdog
+
+            self.old = signal.signal(signal.SIGALRM, _raise)
+            signal.setitimer(signal.ITIMER_REAL, self.seconds)
+        return self
+
+    def __exit__(self, *exc):
+        import signal
+
+        if self.active:
+            signal.setitimer(signal.ITIMER_REAL, 0.0)
+            signal.signal(signal.SIGALRM, self.old)
+        return False
+
+
 def run_opt_case(case, rep):
     ctx = Ctx(case)
     system, grouping = ctx.system, ctx.grouping
@@ -1071,9 +1101,16 @@ def run_opt_case(case, rep):
             form = scenario.formulation
             cnames = [c.name for c in form.optimization_problem.constraints]
             duplicate = len(set(cnames)) != len(cnames)
-            scenario.execute(algo_name="SLSQP", max_iter=case["max_iter"], ftol_rel=1e-14, ftol_abs=1e-14,
-                             xtol_rel=1e-14, xtol_abs=1e-14, eq_tolerance=1e-9, ineq_tolerance=1e-9)
+            with _opt_watchdog(90.0):
+                scenario.execute(algo_name="SLSQP", max_iter=case["max_iter"], ftol_rel=1e-14, ftol_abs=1e-14,
+                                 xtol_rel=1e-14, xtol_abs=1e-14, eq_tolerance=1e-9, ineq_tolerance=1e-9)
             res = scenario.optimization_result
+        except _OptWatchdog:
+            # SciPy's SLSQP can loop for ever re-evaluating recorded points (no new iteration, so no budget stop):
+            # that is not a verdict on the formulations; the case is inconclusive for the optimum clause only.
+            rep.count("opt_watchdog_fired")
+            rep.observe("optimisation aborted by the per-run watchdog (inconclusive for the optimum clause)", {"form": key})
+            continue
         except Exception as e:
             tag = "duplicate-constraint-names" if duplicate else feat
             rep.violation(f"C17:opt:{which}:exception:{type(e).__name__}:{tag}", "optimum", case, observed=_exc(e),
